@@ -249,10 +249,23 @@ def main():
         e = max(dist360(b.longitude, lon), abs(F(b.latitude) - F(lat)))
         if e > QDMS_BOUND + FLOAT_SLACK:
             flag(m, 'qdms-roundtrip', f'from_qdms(to_qdms(c)) is {float(e * 3600):.3g} arc-seconds away')
+        elif e > F(1, 200) * ARCSEC:
+            # finding D37's signature: beyond the literal 0.005" but inside the proved bound (the excess is
+            # to_qdms's double rounding of the seconds plus from_qdms's own rounding to 1e-6 degrees)
+            ck.count('qdms:beyond-0.005-arcsec-within-proved-bound (D37)')
         if cls == 'six-decimals' and e > F(1, 10 ** 6) + FLOAT_SLACK:
             flag(m, 'qdms-roundtrip-6dec', f'{float(e):.3g} degrees for a 6-decimal input')
         add(f'KFromQdms {slit(q[0])} {slit(q[1])} {qlit(TOL)} {qlit(F(b.longitude))} {qlit(F(b.latitude))}', m)
         ck.count('coord:' + cls)
+
+    # ---- D37: deterministic replay of the known finding (literal 0.005" exceeded through from_qdms's rounding)
+    for f in ck.findings:
+        if f.get('status') == 'open' and f.get('signature') == 'qdms_excess_within_read_rounding':
+            c0 = Coordinate(f['replay']['lon'], f['replay']['lat'])
+            b0 = Coordinate.from_qdms(*c0.to_qdms())
+            e0 = max(dist360(b0.longitude, c0.longitude), abs(F(b0.latitude) - F(c0.latitude)))
+            if F(1, 200) * ARCSEC < e0 <= QDMS_BOUND + FLOAT_SLACK:
+                ck.known(f)
 
     # from_dms on hand-made tuples (ints and floats, any hemisphere, values the constructor must wrap)
     hand = [((200, 0, 0, 'E'), (95, 30, 0, 'N')), ((0, 0, 0.0, 'W'), (0, 0, 0.0, 'S')), ((179, 59, 60.0, 'E'), (89, 59, 60.0, 'S')),
@@ -352,8 +365,14 @@ def main():
         import mgrs  # noqa
         for lo, la in fixed_pts + [(10.0, 86.0), (-120.0, -88.0), (6.0, 60.0), (9.0, 72.0), (33.0, 78.0)]:
             c = Coordinate(lo, la)
-            s = c.to_mgrs()
-            b = Coordinate.from_mgrs(s)
+            try:
+                s = c.to_mgrs()
+                b = Coordinate.from_mgrs(s)
+            except Exception as ex:   # noqa  a reference the writer emits must be readable
+                m = {'k': 'mgrs', 'coord': [lo, la], 'raised': repr(ex)}
+                flag(m, 'mgrs-roundtrip', f'to_mgrs/from_mgrs raised {ex!r}')
+                add('KRhu 0 0 0', m)
+                continue
             dm = math.hypot((b.latitude - c.latitude) * 111320,
                             min(abs(b.longitude - c.longitude), 360 - abs(b.longitude - c.longitude)) * 111320 * math.cos(math.radians(c.latitude)))
             ck.count('mgrs')
@@ -367,7 +386,7 @@ def main():
     ck.cov['evaluations'] = len(cases) + len(tab)
     ck.cov['distinct_nontrivial'] = len(nontrivial)
     ck.cov['rounding_guard_skipped'] = skipped
-    ck.cov['exhaustive'] = 'f"{h/100:.2f}" for h=0..6000; to_qdms across every hundredth 0..6000; every 2-decimal tie of the 5-decimal seconds'
+    ck.cov['exhaustive_parts'] = 'f"{h/100:.2f}" for h=0..6000; to_qdms across every hundredth 0..6000; every 2-decimal tie of the 5-decimal seconds'
     for i in (0, 40, 2000, len(cases) - 1):
         ck.sample(cases[min(i, len(cases) - 1)][:300])
 
